@@ -510,9 +510,9 @@ def c35_tables(run):
             run.transitions += r.generated
         return tabs
     jobs = [exh, lambda: sim(dict(Bug="none", Alphabet=[0, 97, 255], MaxPLen=1, W=2, L=1, MaxKeys=10, Emit=True),
-                             40 if quick else 400, "(3 byte values, W=2, L=1, 10 keys)")]
+                             40 if quick else 200, "(3 byte values, W=2, L=1, 10 keys)")]
     if not quick:
-        jobs.append(lambda: sim(dict(Bug="none", Alphabet=[0, 97, 255], MaxPLen=2, W=3, L=2, MaxKeys=16, Emit=True), 150,
+        jobs.append(lambda: sim(dict(Bug="none", Alphabet=[0, 97, 255], MaxPLen=2, W=3, L=2, MaxKeys=16, Emit=True), 20,
                                 "(prefixes <= 2 bytes, W=3, L=2, 16 keys)"))
     with Phase(run, "tables"):
         res = parallel(*jobs)
